@@ -354,6 +354,14 @@ def _reference(Qn, pi, t, reversible, fast):
     return fast
 
 
+def _mat(x):
+    """matrices go into failure details in full only when small"""
+    x = np.asarray(x)
+    if x.size <= 64:
+        return x.tolist()
+    return {"shape": list(x.shape), "first_row_head": x.reshape(-1, x.shape[-1])[0, :6].tolist()}
+
+
 def _band(x, edges, names):
     for e, nm in zip(edges, names):
         if x < e:
@@ -414,7 +422,7 @@ def body(c):
     if model not in PARAM_FREE and tuple(Qm.shape) != ss + (k, k):
         return res.fail("q_shape", {"q": list(Qm.shape), "expected": list(ss + (k, k))})
     if not (np.all(np.isfinite(Qs)) and np.all(np.isfinite(pis))):
-        return res.fail("nonfinite_q", {"q": Qs.tolist()})
+        return res.fail("nonfinite_q", {"q": _mat(Qs)})
 
     # ---- p_t in the shape the likelihood passes (or scalar / [B])
     P = arr(m.p_t(torch.tensor(tfull.tolist())))
@@ -450,16 +458,18 @@ def body(c):
         off = ~np.eye(k, dtype=bool)
         # ---------------- (a) the rate matrix
         if np.any(Q[off] < 0):
-            return res.fail("q_negative_offdiagonal", dict(d, q=Q.tolist()))
+            return res.fail("q_negative_offdiagonal", dict(d, q=_mat(Q)))
         rowerr = np.abs(Q.sum(axis=1)) / np.abs(np.diagonal(Q)).clip(1e-300)
         if np.max(rowerr) > 1e-12:
-            return res.fail("q_rowsum", dict(d, rowsum=Q.sum(axis=1).tolist(), q=Q.tolist()))
+            return res.fail("q_rowsum", dict(d, worst_relative_rowsum=float(np.max(rowerr)), q=_mat(Q)))
         if model in ("LG", "WAG", "MG94"):
             stt = rm.structure(Q, pi)
             if stt["asymmetry"] > TOL_Q:
                 return res.fail("q_not_reversible", dict(d, asymmetry=stt["asymmetry"]))
             if model != "MG94" and not stt["min_offdiag"] > 0:
                 return res.fail("q_zero_offdiagonal", dict(d, min_offdiag=stt["min_offdiag"]))
+            if model == "MG94" and _relerr(pi, np.asarray(c["freqs"][i if c["fbatch"] else 0])) > 1e-14:
+                return res.fail("frequencies", dict(d, what="model frequencies differ from the specified ones"))
             Qn = rm.from_q(Q, pi)
         else:
             par = oracle_params(c, i)
@@ -469,15 +479,23 @@ def body(c):
             Qn = rm.normalise(Qdoc, pidoc)
             Qmn = rm.normalise(Q, pidoc)  # proportionality: compare after a common normalisation
             if model == "GeneralNonSymmetric":
+                # what both readings of the docstring share: first half of the mapping = upper
+                # triangle row by row; the lower triangle holds the second half's rates.  The
+                # proportionality constant is taken from the upper triangle alone.
                 iu = np.triu_indices(k, 1)
-                if _relerr(Qmn[iu], Qn[iu]) > TOL_Q:
-                    return res.fail("q_documented", dict(d, part="upper triangle", q=Q.tolist(), expected_normalised=Qn.tolist()))
-                lo_m = np.sort((Qmn / pidoc[None, :])[(iu[1], iu[0])])
-                lo_o = np.sort((Qn / pidoc[None, :])[(iu[1], iu[0])])
+                il = (iu[1], iu[0])
+                cst = float(np.sum(Q[iu]) / np.sum(Qdoc[iu]))
+                if not (cst > 0 and _relerr(Q[iu], cst * Qdoc[iu]) <= TOL_Q):
+                    return res.fail("q_documented", dict(d, part="upper triangle", q=Q.tolist(), expected_proportional_to=Qdoc.tolist()))
+                lo_m = np.sort((Q / pidoc[None, :])[il])
+                lo_o = np.sort((cst * Qdoc / pidoc[None, :])[il])
                 if _relerr(lo_m, lo_o) > TOL_Q:
-                    return res.fail("q_documented", dict(d, part="lower triangle multiset", q=Q.tolist(), expected_normalised=Qn.tolist()))
-                if _relerr(Qmn, Qn) > TOL_Q:
-                    return res.fail("q_lower_order", dict(d, q=Q.tolist(), expected_normalised=Qn.tolist()))
+                    return res.fail("q_documented", dict(d, part="lower triangle multiset", q=Q.tolist(), expected_proportional_to=Qdoc.tolist()))
+                # the order within the lower triangle (transposed positions), fixed by test_general_GTR
+                if _relerr(Q[il], cst * Qdoc[il]) > TOL_Q:
+                    return res.fail("q_lower_order", dict(d, q=Q.tolist(), expected_proportional_to=Qdoc.tolist()))
+                if _relerr(Qmn, Qn) > 10 * TOL_Q:
+                    return res.fail("q_documented", dict(d, part="diagonal", q=Q.tolist(), expected_normalised=Qn.tolist()))
             elif _relerr(Qmn, Qn) > TOL_Q:
                 return res.fail("q_documented", dict(d, q=Q.tolist(), expected_normalised=Qn.tolist(), relerr=_relerr(Qmn, Qn)))
         # ---------------- (b) normalisation constant
@@ -501,11 +519,11 @@ def body(c):
                 ref = _reference(Qn, pi, t, model in REVERSIBLE, ref)
                 err = maxabs(Pij, ref)
             if not err <= tolP:
-                return res.fail("mismatch", dict(d2, err=err, p=Pij.tolist(), expected=ref.tolist()), tband=_band(t, [1e-4, 1e-1, 10], ["<1e-4", "<1e-1", "<10", ">=10"]))
+                return res.fail("mismatch", dict(d2, err=err, p=_mat(Pij), expected=_mat(ref)), tband=_band(t, [1e-4, 1e-1, 10], ["<1e-4", "<1e-1", "<10", ">=10"]))
             if np.max(np.abs(Pij.sum(axis=1) - 1.0)) > tolP or np.min(Pij) < -tolP:
                 return res.fail("not_stochastic", dict(d2, rowsums=Pij.sum(axis=1).tolist(), min=float(np.min(Pij))))
             if t == 0.0 and maxabs(Pij, np.eye(k)) > 1e-12:
-                return res.fail("p0_not_identity", dict(d2, p=Pij.tolist()))
+                return res.fail("p0_not_identity", dict(d2, p=_mat(Pij)))
             if model in REVERSIBLE:
                 if np.max(np.abs(pi @ Pij - pi)) > tolP:
                     return res.fail("not_stationary", dict(d2, piP=(pi @ Pij).tolist(), pi=pi.tolist()))
